@@ -141,9 +141,10 @@ def run(ctx):
             ctx.broken.append("R1 with deviation C25evict1 found no counterexample")
         lap("R1 (deviation)")
     else:
-        r1 = ctx.tlc(sd, "MC_TxCache", cfg("r1.cfg", dict(SELECT, prices="1" if q else "1, 2",
-                                                        notify="0, 1" if q else "0, 1, 2")), timeout=3000, coverage=not q,
-                     extra=None if q else ["-coverage", "100000"])
+        r1 = ctx.tlc(sd, "MC_TxCache", cfg("r1.cfg", dict(SELECT, notify="0, 1" if q else "0, 1, 2")), timeout=3000,
+                     coverage=not q, extra=None if q else ["-coverage", "100000"])
+        if not q:   # two prices per nonce (several transactions with one nonce in a selection), nonces 0 and 3
+            ctx.tlc(sd, "MC_TxCache", cfg("r1p.cfg", dict(SELECT, nonces="0, 3", prices="1, 2")), timeout=3000)
         lap("R1 (intended design)")
         rd = ctx.tlc(sd, "MC_TxCache", cfg("r1d.cfg", dict(SELECT, defects='"C26nonce0"')), timeout=900, count=False,
                      allow=("property", "invariant"))
